@@ -5,7 +5,7 @@
     every observation of "unlocked" is preceded by an unlock whose password was
     verified, with no lock / timer expiry / restart in between. *)
 From Coq Require Import List ZArith NArith Bool.
-From C33 Require Import C38.Model C38.Spec C38.Witness C38.Proofs C38.ProofsMain C38.ProofsTimed C38.ProofsTimed2.
+From C33 Require Import C38.Model C38.Spec C38.Witness C38.Proofs C38.ProofsMain C38.ProofsTimed C38.ProofsTimed2 C38.ProofsTimed3.
 Import ListNotations.
 Open Scope Z_scope.
 
@@ -103,3 +103,38 @@ Theorem C38_timed_example :
   /\ result_of g 4 = Some (RErr eLocked) /\ result_of g 6 = Some (RBool false).
 Proof. exact timed_example. Qed.
 Print Assumptions C38_timed_example.
+
+(** quiescent histories: whenever a request hands out a stored key, the seed or
+    a signature made with a stored key ([ESecret i]), its own flag test under the
+    mutex ([EObs i true true t]) was made at a time t at which the most recent
+    successful unlock - with no lock and no restart since - had no timeout
+    (T <= 0) or was at most T seconds old.  (Time does not pass inside a request
+    of a quiescent history, so t is also the time of the reply.) *)
+Theorem C38_no_secret_after_timeout : forall ops i newer older,
+  trace (seq_run ops init_g) = newer ++ ESecret i :: older ->
+  exists t mid older',
+    older = mid ++ EObs i true true t :: older' /\ auth_timed older' t = true.
+Proof. exact no_secret_after_timeout. Qed.
+Print Assumptions C38_no_secret_after_timeout.
+
+(** the form the timed batteries of the harness test: after any quiescent
+    history whose last successful unlock has expired (or was followed by a lock
+    or a restart, or never happened), every request that needs the unlocked
+    wallet - DumpPrivkey, GetSeed, SignRawTx by address, ImportPrivKey,
+    SendToAddress, CheckWalletStatus, for every account - is refused with
+    ErrWalletIsLocked, whatever was handed out for the same account before *)
+Theorem C38_refused_after_timeout : forall ops k,
+  let g := seq_run ops init_g in
+  auth_timed (trace g) (now (sh g)) = false ->
+  snd (call (QSecret k) g) = Some (RErr eLocked).
+Proof. exact refused_after_timeout. Qed.
+Print Assumptions C38_refused_after_timeout.
+
+Theorem C38_secret_timed_example :
+  let g := seq_run ops_secret_example init_g in
+  result_of g 2 = Some RSecret /\ result_of g 3 = Some (RErr eLocked)
+  /\ result_of g 5 = Some (RErr eLocked)
+  /\ existsb (fun e => match e with ESecret _ => true | _ => false end) (trace g) = true
+  /\ auth_timed (trace g) (now (sh g)) = false.
+Proof. exact secret_example. Qed.
+Print Assumptions C38_secret_timed_example.
